@@ -6,6 +6,7 @@ LEVEL = 'proof'
 
 
 def run(rep):
+    enginep.unify_deductive(rep)      # facts are matched by unification: the unify family against su (C02's contracts)
     enginep.engine_deductive(rep, enginep.META_FUNS + ['engine.YP.query', 'engine.unify'])
     # an inline goal reaches these builtins only through the compiled clause: a predicate goal (=, \\=, call, once, findall included) is
     # compiled to one query(name, args) loop around the rest of the body (compile_body / compile_predicate contracts of C01)
